@@ -173,6 +173,14 @@ func (g *sgen) stmt() Stmt {
 		}
 		lines = append(lines, "  line3"+q+")")
 		return Stmt{Kind: "triple", Lines: lines, Ticks: []int{t}}
+	case x < 31 && r.Chance(1, 12):
+		// one very long physical line (longer than any fixed-size line buffer)
+		n := []int{4090, 4096, 5000, 65530, 65536, 70000, 140000}[r.Intn(7)]
+		a, t := g.tk("len(\"" + strings.Repeat("s", n) + "\")")
+		if r.Chance(1, 2) {
+			return Stmt{Kind: "simple", Lines: []string{g.v() + " = " + a}, Ticks: []int{t}}
+		}
+		return Stmt{Kind: "compound", Lines: []string{"if True:", in + g.v() + " = " + a, in + g.v() + " = 5"}, Ticks: []int{t}}
 	case x < 31:
 		a, t := g.tk(g.intExpr())
 		return Stmt{Kind: "backslash", Lines: []string{g.v() + " = 1 + \\", "    " + a}, Ticks: []int{t}}
@@ -277,7 +285,9 @@ func (g *sgen) stmt() Stmt {
 		return Stmt{Kind: "blocksyntaxerr", Lines: []string{"if " + g.v() + " < 100:", in + g.v() + " = " + a, in + "x = = 3"}}
 	case x < 39:
 		a, t := g.tk("1")
-		forms := []string{a + " // 0", "undefined_name_zz", g.v() + " = " + a + " // 0", "[1][5 + " + a + "]"}
+		forms := []string{a + " // 0", "undefined_name_zz", g.v() + " = " + a + " // 0", "[1][5 + " + a + "]",
+			// a SyntaxError raised at RUN time for truncated source: the statement itself is complete
+			"eval(\"(\" + str(" + a + ") + \", 2\")", g.v() + " = [" + a + ", exec(\"if x:\")]", "compile('\"\"\"abc' + str(" + a + "), 'f', 'exec')", "eval(\"[\" * " + a + ")"}
 		f := r.Intn(len(forms))
 		ticks := []int{t}
 		if f == 1 {
@@ -322,8 +332,8 @@ func (Engine) Gen(seed uint64, idx int, tier string) interface{} {
 	}
 	sc.Stmts = append(sc.Stmts, Stmt{Kind: "compound", Lines: []string{"class CM:", g.ind + "def __enter__(self):", g.ind + g.ind + "return 3", g.ind + "def __exit__(self, *a):", g.ind + g.ind + "return False"}})
 	n := 3 + r.Intn(12)
-	if tier == "thorough" && r.Chance(1, 3) {
-		n = 15 + r.Intn(25)
+	if (tier == "thorough" && r.Chance(1, 3)) || r.Chance(1, 15) {
+		n = 15 + r.Intn(45) // long sessions
 	}
 	for i := 0; i < n; i++ {
 		st := decorate(r, g.stmt())
